@@ -654,10 +654,22 @@ func main() {
 	}
 	syscall.Umask(0)
 	log.SetLogLevel(log.CriticalLevel)
-	tmpBase := os.Getenv("C18_SANDBOXES")
+	// a private directory per driver process (parallel drivers would otherwise contend for one directory):
+	// <base>/sand for the sandboxes, <base>/tmp as TMPDIR (fstree's atomic writer may put its temporary files there)
+	procBase, err := os.MkdirTemp(os.Getenv("C18_SANDBOXES"), "proc-")
+	if err != nil {
+		fmt.Fprintln(os.Stderr, err)
+		os.Exit(2)
+	}
+	defer os.RemoveAll(procBase)
+	tmpBase := procBase + "/sand"
+	_ = os.Mkdir(tmpBase, 0o755)
+	_ = os.Mkdir(procBase+"/tmp", 0o755)
+	os.Setenv("TMPDIR", procBase+"/tmp")
 	tr, err := vio.NewTrace(os.Args[2])
 	if err != nil {
 		fmt.Fprintln(os.Stderr, err)
+		os.RemoveAll(procBase)
 		os.Exit(2)
 	}
 	h := 0
@@ -679,6 +691,7 @@ func main() {
 		return nil
 	})
 	tr.Close()
+	os.RemoveAll(procBase)
 	if err != nil {
 		fmt.Fprintln(os.Stderr, err)
 		os.Exit(2)
